@@ -64,9 +64,11 @@ def formulas(T, R):
             f'=SUMIFS(B1:C{R},{a},{T})', f'=AVERAGEIFS(B1:C{R},{a},{T})', f'=COUNTIFS({a},{T},B1:C{R},">1")',
             f'=COUNTIFS({c},">1",{a},{T})',
             # a whole column as the sum range: aligned from ITS first row, wherever the criteria range starts
-            f'=SUMIF({a},{T},B:B)', f'=SUMIF(A2:A{R},{T},B:B)']
-NF = 18
-COUNT_SHAPES = {3, 6, 10, 14, 15}          # COUNTIFS shapes: GuardsSum does not apply to them
+            f'=SUMIF({a},{T},B:B)', f'=SUMIF(A2:A{R},{T},B:B)',
+            # mis-sized ranges in a pair that is NOT the last one (the last pair fits)
+            f'=AVERAGEIFS({b},C1:C{R - 1},">1",{a},{T})', f'=SUMIFS({b},C1:C{R + 1},">1",{a},{T})', f'=COUNTIFS(C1:C{R - 1},">1",{a},{T})']
+NF = 21
+COUNT_SHAPES = {3, 6, 10, 14, 15, 20}          # COUNTIFS shapes: GuardsSum does not apply to them
 
 
 def target(i):
@@ -92,6 +94,7 @@ def expected(rec, R):
     out += ['ERR', 'ERR', 'ERR', 'ERR', 'ERR', 'ERR']
     out += [None if sel12 == [-1] else len(sel12)]
     out += [s_b, sum(target(i - 2) for i in sel if i >= 2)]
+    out += ['ERR', 'ERR', 'ERR']
     return out
 
 
@@ -129,6 +132,7 @@ def expected_dev(rec, sp, R):
     out.append('ERR' if s is None else sum(target(i - 1) for i in s))                                                  # 16 SUMIF(a,T,B:B)
     s2 = sel_all(vn, None, 2)
     out.append('ERR' if s2 is None else sum(target(i - 2) for i in s2))                                                # 17 SUMIF(A2:An,T,B:B)
+    out += ['ERR'] * 3                                                                                                 # 18-20 mis-sized, not in the last pair
     return out
 
 
